@@ -215,6 +215,19 @@ func (c *Ctx) checkFormulas() {
 						Message: fmt.Sprintf("over the rationals the value computed equals the documented formula (%s), but the indicator is generic over integer element types too, where the order of multiplication and division changes the result (1/period is 0): computed %s ; documented %s", sp.Doc, short(ki, 200), short(kw, 200))})
 				}
 			}
+			if ok {
+				g2, w2 := got, want
+				if !sym.Equal(got, want) {
+					g2, w2 = anonymise(got), anonymise(want)
+				}
+				why, pts := limitAgreement(g2, w2)
+				run.Count("limit_points", pts)
+				run.Oblige(why == "")
+				if why != "" {
+					run.Violate(report.Finding{Rule: "formula/limit", Site: site, Detail: short(why, 140), Pos: c.P.Pos(fi.Decl.Pos()),
+						Message: fmt.Sprintf("as rational functions the value computed equals the documented formula (%s), but not in floating-point arithmetic where a denominator vanishes: %s (a NaN or a different limit where the documented formula has a value)", sp.Doc, why)})
+				}
+			}
 			run.Sample(map[string]string{"obligation": "value(" + site + ") = " + sp.Doc, "verdict": fmt.Sprint(ok)})
 			if !ok {
 				run.Violate(report.Finding{Rule: "formula", Site: site, Detail: short(sym.CanonString(got), 160), Pos: c.P.Pos(fi.Decl.Pos()),
